@@ -52,6 +52,9 @@ Check(r, idx) ==
         posA(k, v) == CHOOSE j \in DOMAIN evA : evA[j].k = k /\ evA[j].v = v
     IN
     (IF r.diag # "" THEN <<F(idx, "run.diag", r.diag)>> ELSE <<>>)
+    \* the code under test panicked inside a goroutine the cache started (maintenance): the policy structures are corrupt and,
+    \* with the eviction mutex never released, neither the bound nor the notifications are maintained any more
+    \o (IF r.libpanic # "" THEN <<F(idx, "C05.abnormal_end", r.libpanic), F(idx, "C04.abnormal_end", r.libpanic), F(idx, "C06.abnormal_end", r.libpanic)>> ELSE <<>>)
     \o (IF r.status # 0 \/ r.wbuf # 0 THEN <<F(idx, "C14.pending", <<r.status, r.wbuf>>)>> ELSE <<>>)
     \* C05: policy bookkeeping agrees with the map
     \o (IF a1 # {} THEN <<F(idx, "C05.alive_iff_mapped", a1)>> ELSE <<>>)
